@@ -217,6 +217,30 @@ def main(argv):
                 ctx.violation("store/fetch through the serializer raised", dict(case, error=err), tags=tags)
             elif r1 is not True or got != o or type(got) is not type(o) or gm != {"k": o} or type(gm["k"]) is not type(o):
                 ctx.violation("value did not come back equal and of the same type", dict(case, got=repr(got)[:60], got_type=type(got).__name__), tags=tags)
+    # 3a. values the serializer may REFUSE to store (text that has no UTF-8 form: lone surrogates, as os.fsdecode() produces for undecodable file
+    #     names): the property speaks of what happens after a successful store - if the store is accepted the value must come back, equal
+    maybe_refused = ["\udc80", "caf\udce9.txt", "a\ud800b", "\udfff" * 3, ["\udc80", 1], {"name": "caf\udce9"}, ("\ud800",)]
+    for sname, sd in serdes:
+        if sname == "custom":
+            continue
+        for oi, o in enumerate(maybe_refused):
+            srv, world, c = mk(serde_obj=sd, pfx=b"s:")
+            ctx.case(("serde-maybe-refused", sname, oi))
+            case = {"serde": sname, "value": ascii(o)[:60], "type": type(o).__name__}
+            try:
+                r1 = c.set("k", o, noreply=False)
+            except Exception as e:
+                ctx.count("store refused: " + type(e).__name__)
+                continue
+            ctx.count("store accepted (value without a UTF-8 form)")
+            try:
+                got = c.get("k")
+                gm = c.get_many(["k", "zz"])
+            except Exception as e:
+                ctx.violation("the store was accepted but the fetch raised", dict(case, error=repr(e)[:120]), tags=["serde:" + sname.split("-")[0], "accepted-then-lost"])
+                continue
+            if r1 is not True or got != o or type(got) is not type(o) or gm != {"k": o}:
+                ctx.violation("value did not come back equal and of the same type", dict(case, got=ascii(got)[:60], got_type=type(got).__name__), tags=["serde:" + sname.split("-")[0]])
     # 3b. one set_many with values of DIFFERENT kinds (every item carries its own serializer flags), in several orders, fetched back one by one
     #     and together
     mixed = [("i", 7), ("b", b"raw bytes"), ("t", "text \u00e9"), ("d", {"k": [1, 2]}), ("z", 0), ("e", b""), ("n", None), ("f", 1.5), ("big", 10 ** 30)]
